@@ -11,6 +11,17 @@ for d0 in "$@"; do d=$(realpath "$d0")
   git -C /repo checkout -- .
   PYTHONPATH=/repo timeout 300 /venv/bin/python "$d/demo.py" < /dev/null > /dev/null 2>&1; rc0=$?
   if echo "$out" | grep -q VIOLATION; then res=CAUGHT; else res=MISSED; fi
-  echo "$d demo_patched=$rc1 demo_clean=$rc0 check=$res ($out)" | cut -c1-260
+  kinds=$(python3 - "$id" <<'PY'
+import glob, json, sys
+ks = []
+for f in sorted(glob.glob('/verif/replays/%s-*.json' % sys.argv[1])):
+    try:
+        ks.append(json.load(open(f)).get('kind', '?'))
+    except Exception:
+        ks.append('?')
+print(','.join(sorted(set(ks))))
+PY
+)
+  echo "$d demo_patched=$rc1 demo_clean=$rc0 check=$res caught_by=[$kinds]" | sed 's|/verif/||'
   rm -f /verif/replays/$id-*.json
 done
